@@ -10,6 +10,8 @@
      verdict  0 | dup dupcase nomand nomandchoice nomin nomax nouniq nokey type fuel
      rules    letters of the violated rules of RfcValid.v: t types k keys s single u keyuniq l llval c case m mand
               h mand_choice n min x max q unique (- when none)
+   With a field  #N 1  (component configmodel) the answer is ONE item for the first #d field,
+     N:<impl_parse_validate_config verdict, also state>:<rfc_valid_config 0|1>:<vschema_ok (cfg_view vs)><cfg_ready vs><fresh, every node flagged new, placed>
    Formats of #t and #u: tools/validenc.py. *)
 
 let field_opt (f : string list) (tag : string) : string option =
@@ -95,7 +97,7 @@ let rec all_new (l : vnode list) : bool = List.for_all (fun (VN (_, _, _, w, _, 
 
 let class_of = function
   | EFuel -> "fuel" | EType -> "type" | EKey -> "nokey" | EDup -> "dup" | EDupCase -> "dupcase" | ENoMand -> "nomand"
-  | ENoMandChoice -> "nomandchoice" | ENoMin -> "nomin" | ENoMax -> "nomax" | ENoUniq -> "nouniq"
+  | ENoMandChoice -> "nomandchoice" | ENoMin -> "nomin" | ENoMax -> "nomax" | ENoUniq -> "nouniq" | EState -> "state"
 
 let ty_true _ _ = true
 
@@ -147,6 +149,17 @@ let run (f : string list) : string =
          let after d =
            let ef = explicit (parse_vdump nt d) in
            Printf.sprintf "A:%d:%s" (if rfc_valid ty_true vs ef then 1 else 0) (rules vs (prune vs ef)) in
+         (* #N: LYD_VALIDATE_NO_STATE on the (fresh) tree of the first dump
+            N:<impl_parse_validate_config verdict>:<rfc_valid_config 0|1>:<vschema_ok (cfg_view vs)><cfg_ready vs><fresh, all flagged new, placed> *)
+         let config d =
+           let vf = parse_vdump nt d in
+           let f = List.map erase vf in
+           let fr = fresh vs f && all_new vf && placed vs f in
+           let v = match (if fr then impl_parse_validate_config vs ty_true f else impl_validate_config vs vf) with
+             | VOk -> "0" | VErr e -> class_of e in
+           Printf.sprintf "N:%s:%d:%d%d%d" v (if rfc_valid_config ty_true vs f then 1 else 0)
+             (if vschema_ok (cfg_view vs) then 1 else 0) (if cfg_ready vs then 1 else 0) (if fr then 1 else 0) in
+         if field_opt rest "N" <> None then config (List.hd (fields_all rest "d")) else
          String.concat " | " (List.map one (fields_all rest "d") @ List.map after (fields_all rest "a"))
        with Tree_io m -> "E " ^ m)
   | _ -> "?"
